@@ -1,7 +1,8 @@
 (* Extraction of the completion-engine model (C18).  ExtrOcamlBasic only; no Extract Constant. *)
 From Coq Require Import Extraction ExtrOcamlBasic.
-From ClapModel Require Import Parse.Cmd Parse.Build Parse.Valid Complete.EngineModel.
+From ClapModel Require Import Parse.Cmd Parse.Build Parse.Valid Complete.EngineModel Complete.EngineOrder.
 Extraction Language OCaml.
 Separate Extraction
   Cmd.arg_new Cmd.group_new Cmd.cmd_new Cmd.settings_none Cmd.settings_or
-  EngineModel.complete_model EngineModel.start_walk EngineModel.build_full EngineModel.build_fuel.
+  EngineModel.complete_model EngineModel.start_walk EngineModel.build_full EngineModel.build_fuel
+  EngineOrder.complete_model_ord.
